@@ -487,6 +487,10 @@ func normCondIn(p *packagesPackage, fd *ast.FuncDecl, e ast.Expr) string {
 			}
 			sort.Strings(ks)
 			prov[o] = "<" + strings.Join(ks, "|") + ">"
+			// a named boolean with a single definition (`reversed := a < b; if reversed {…}`) is transparent
+			if bt, ok := v.Type().Underlying().(*types.Basic); ok && bt.Kind() == types.Bool && len(ks) == 1 {
+				prov[o] = ks[0]
+			}
 		}
 		return prov[o]
 	}
